@@ -214,7 +214,7 @@ def unroll(stmts, env=None):
       for v in range(start, stop, step):
         out += unroll(body, dict(env, **{var: v}))
     elif st[0] == "=":
-      out.append(["=", concretize(st[1], env), subst_expr(st[2], env)] if env else st)
+      out.append(["=", concretize(st[1], env), subst_expr(st[2], env)] + list(st[3:]) if env else st)
     elif st[0] == "tmp":
       out.append(["tmp", st[1], subst_expr(st[2], env)] if env else st)
     else:
@@ -312,13 +312,14 @@ def emit_stmts(stmts, ind, kind, out, op=None):
   op = op or ("@=" if kind == "comb" else "<<=")
   for st in stmts:
     if st[0] == "=":
-      out.append(" " * ind + f"{ref_text(st[1])} {op} {expr_text(st[2])}")
+      out.append(" " * ind + f"{ref_text(st[1])} {st[3] if len(st) > 3 else op} {expr_text(st[2])}")       # st[3]: this statement's own operator
     elif st[0] == "call":
       out.append(" " * ind + f"{st[1]}()")
     elif st[0] == "raw":
       out.append(" " * ind + st[1])
     elif st[0] == "tmp":
-      out.append(" " * ind + f"{st[1]} = {expr_text(st[2])}")
+      names = st[1] if isinstance(st[1], list) else [st[1]]          # a list: chained assignment  a = b = expr
+      out.append(" " * ind + " = ".join(names) + f" = {expr_text(st[2])}")
     elif st[0] == "for":
       rng_txt = f"range({st[3]})" if (st[2] == 0 and st[4] == 1) else f"range({st[2]}, {st[3]}, {st[4]})"
       out.append(" " * ind + f"for {st[1]} in {rng_txt}:")
@@ -537,7 +538,8 @@ class Ref:
         v = ev(st[2], rd, env) & mask(st[1]["w"])
         ch |= self.write_cells(self.ref_cells(host, st[1]), v, sink)
       elif st[0] == "tmp":
-        env[st[1]] = ev(st[2], rd, env)
+        v = ev(st[2], rd, env)                                       # evaluated ONCE, then bound to every target
+        for nm in (st[1] if isinstance(st[1], list) else [st[1]]): env[nm] = v
       else:
         ch |= self.exec_stmts(host, st[2] if ev(st[1], rd, env) else st[3], bits, sink, env)
     return ch
@@ -959,12 +961,37 @@ class Gen:
           # block-local temporary: t = <explicit expr>; target @= f(t)
           tw = rng.choice(SMALLW + [p["w"]])
           tn = f"t{bi}_{ntmp}"; ntmp += 1
-          stmts.append(["tmp", tn, self._explicit(tw, list(srcs), 2)])
+          tv2 = None
+          if rng.random() < k.get("p_tmp_chain", 0):
+            # chained assignment to two temporaries:  a = b = expr  (expr evaluated once)
+            tn2 = f"t{bi}_{ntmp}"; ntmp += 1
+            shape = rng.randrange(3)
+            if shape == 0:
+              stmts.append(["tmp", [tn, tn2], self._explicit(tw, list(srcs), 2)])
+            elif shape == 1:
+              # ... as the ONLY statement of an else branch (the if branch gives the two temporaries DIFFERENT values, so a
+              # second assignment that escapes the else branch is visible)
+              stmts.append(["if", self.cond(list(srcs), 1),
+                            [["tmp", tn, self._explicit(tw, list(srcs), 1)], ["tmp", tn2, self._explicit(tw, list(srcs), 1)]],
+                            [["tmp", [tn, tn2] if rng.random() < 0.5 else [tn2, tn], self._explicit(tw, list(srcs), 1)]]])
+            else:
+              # ... whose right-hand side reads one of its own targets
+              stmts.append(["tmp", tn2, self._explicit(tw, list(srcs), 1)])
+              first = [tn, tn2] if rng.random() < 0.5 else [tn2, tn]
+              stmts.append(["tmp", first, ["bin", rng.choice(["add", "xor", "sub"]), ["tv", tn2, tw], self._explicit(tw, list(srcs), 1)]])
+            tv2 = ["tv", tn2, tw]
+          else:
+            stmts.append(["tmp", tn, self._explicit(tw, list(srcs), 2)])
           tv = ["tv", tn, tw]
           if tw == p["w"]: core = tv
           elif tw < p["w"]: core = [rng.choice(["zext", "sext"]), tv, p["w"]]
           else: core = ["trunc", tv, p["w"]]
-          e2 = core if rng.random() < 0.4 else ["bin", rng.choice(["add", "xor", "and", "or", "sub"]), core, self._explicit(p["w"], list(srcs), 1)]
+          if tv2 is not None:
+            # both temporaries are used:  f(a) op g(b)
+            c2 = tv2 if tw == p["w"] else ([rng.choice(["zext", "sext"]), tv2, p["w"]] if tw < p["w"] else ["trunc", tv2, p["w"]])
+            e2 = ["bin", rng.choice(["add", "xor", "sub"]), core, ["bin", "xor", c2, self._explicit(p["w"], list(srcs), 0)]]
+          else:
+            e2 = core if rng.random() < 0.4 else ["bin", rng.choice(["add", "xor", "and", "or", "sub"]), core, self._explicit(p["w"], list(srcs), 1)]
           stmts.append(["=", p, e2])
         else:
           stmts += self.assign_stmts(p, srcs, "comb")
